@@ -26,6 +26,12 @@ class E1(Exception):
     def __bool__(self):
         return False    # exceptions are user objects too: nothing may decide by their truthiness
 
+    def __eq__(self, other):
+        return isinstance(other, BaseException)     # exceptions that compare equal to each other (identity is what counts)
+
+    def __hash__(self):
+        return 19
+
 
 class E1Sub(E1):
     pass
@@ -35,15 +41,33 @@ class E3(Exception):
     def __bool__(self):
         return False    # exceptions are user objects too: nothing may decide by their truthiness
 
+    def __eq__(self, other):
+        return isinstance(other, BaseException)     # exceptions that compare equal to each other (identity is what counts)
+
+    def __hash__(self):
+        return 19
+
 
 class E2(Exception):
     def __bool__(self):
         return False    # exceptions are user objects too: nothing may decide by their truthiness
 
+    def __eq__(self, other):
+        return isinstance(other, BaseException)     # exceptions that compare equal to each other (identity is what counts)
+
+    def __hash__(self):
+        return 19
+
 
 class Base(BaseException):
     def __bool__(self):
         return False    # exceptions are user objects too: nothing may decide by their truthiness
+
+    def __eq__(self, other):
+        return isinstance(other, BaseException)     # exceptions that compare equal to each other (identity is what counts)
+
+    def __hash__(self):
+        return 19
 
 
 class _ScriptEnd(BaseException):
